@@ -44,7 +44,14 @@ func nearKey(rng *rand.Rand, in []byte) []byte {
 	}
 	if len(b) >= 9 {
 		off := 1 + 8*rng.Intn((len(b)-1)/8)
-		binary.LittleEndian.PutUint64(b[off:], binary.LittleEndian.Uint64(b[off:])+d)
+		v := binary.LittleEndian.Uint64(b[off:]) + d
+		if rng.Intn(3) == 0 {
+			// one field at a boundary of the integer types it may be converted to, the other fields genuine (a count
+			// or a number that only matters once the item named by the rest of the key is held)
+			far := []uint64{0, 1 << 31, 1 << 32, 1 << 60, 1 << 62, 1<<63 - 1, 1 << 63, 1<<64 - 1}
+			v = far[rng.Intn(len(far))] - uint64(rng.Intn(2))*binary.LittleEndian.Uint64(b[off:])
+		}
+		binary.LittleEndian.PutUint64(b[off:], v)
 	} else if len(b) > 1 {
 		b[len(b)-1] += byte(d)
 	}
